@@ -192,8 +192,26 @@ class KernelCase:
             ps = [p for p in f.param_names if p != f.self_name]
             if ps:
                 args[ps[0]] = self.elem
+        fills_local = any(isinstance(n_, ast.Call) and isinstance(n_.func, ast.Attribute) and n_.func.attr in ("append", "extend") and isinstance(n_.func.value, ast.Name)
+                          and n_.func.value.id != f.self_name for n_ in ast.walk(f.node))
         if f.kind == "property":
             v = self.ev.attr(self.s, name, Frame(f, f.module, {}, self.cls, 0))
+        elif fills_local:
+            # the answer is collected in a local list (``result = []; if ..: result.append(x); return result``): read path by path, each path's list as the display it holds
+            from ..listflow import concrete_list
+            from ..sym import t_ite
+            ps = [p_ for p_ in PathEnumerator(Evaluator(self.model, opaque={f"{self.cls.name}.start_index"})).function_paths(f, self_cls=self.cls, args=dict(args)) if p_.exit == "return"]
+            v = None
+            for p_ in reversed(ps):
+                pv = p_.value
+                if pv is not None and pv[0] == "var":
+                    items = concrete_list(p_, pv)
+                    if items is None:
+                        raise AnalysisError(f"{self.cls.name}.{name}: the collected list is not read on a path")
+                    pv = ("list", tuple(items))
+                v = pv if v is None else t_ite(p_.cond, pv, v)
+            if v is None:
+                raise AnalysisError(f"{self.cls.name}.{name}: no return path")
         else:
             v = self.ev.value_of(f, args=args, self_term=self.s, self_cls=self.cls)
         v = subst(v, self.mp)
